@@ -96,7 +96,7 @@ class Gen:
                 rhs = ("s", r.choice(MEAS + ["m3", "m", "many", "few", "_"]))
                 return ("S", "meas", path, ("cmp", r.choice(ops), rhs))
             if t < 0.8:
-                return ("S", "meas", path, (r.choice(["match", "search"]), r.randrange(3), r.randrange(2)))
+                return ("S", "meas", path, (r.choice(["match", "search"]), r.randrange(5), r.randrange(2)))
             return ("S", "meas", path, ("user", r.choice([0, 3, 4, 1])))
         if attr == "tags":
             key = r.choice(TAG_KEYS[:3] + ["zz"])
@@ -114,7 +114,7 @@ class Gen:
             if t < 0.7:
                 return ("S", "tags", path, ("exists",))
             if t < 0.9:
-                return ("S", "tags", path, (r.choice(["match", "search"]), r.randrange(3), r.randrange(2)))
+                return ("S", "tags", path, (r.choice(["match", "search"]), r.randrange(5), r.randrange(2)))
             return ("S", "tags", path, ("user", r.choice([0, 3, 3, 4, 1])))
         # fields
         key = r.choice(FIELD_KEYS + ["zz"])
